@@ -57,7 +57,7 @@ def run(chk, ctx):
     # content decoders behind the guard
     if f.header is None:
         raise AnalysisError('no header read found')
-    hf = T.fmt(f.header.args[0])
+    hf = f.header
     bc = T.add(f.hfield(2), hf.size + 1)
     n_in = 0
     bad = []
